@@ -4,12 +4,12 @@ from concurrent.futures import ThreadPoolExecutor
 from checklib import *
 import kv_engine
 
-MODULE = "Feox.Props.C16"
+MODULE = "Feox.Cache.Evict"   # imports Feox.Props.C16 and adds the eviction-target theorem
 THEOREMS = [
     "Feox.C16.accounting", "Feox.C16.hit_is_own_generation", "Feox.C16.large_values_rejected",
     "Feox.C16.retired_generation_never_replaces", "Feox.C16.replace_needs_newer", "Feox.C16.sweepBucket_size",
     "Feox.C16.insert_inv", "Feox.C16.get_inv", "Feox.C16.remove_inv", "Feox.C16.evict_inv", "Feox.C16.clear_inv",
-    "Feox.C16.adjust_inv", "Feox.C16.real_bucket_count_positive", "Feox.C16.second_chance", "Feox.C16.evicted_was_unreferenced",
+    "Feox.C16.adjust_inv", "Feox.C16.real_bucket_count_positive", "Feox.C16.second_chance", "Feox.C16.evicted_was_unreferenced", "Feox.C16.evict_reaches_low", "Feox.C16.full_pass", "Feox.C16.sweepBucket_full",
 ]
 
 
@@ -110,7 +110,7 @@ def run(ctx):
     })
     return finish(ctx, "proof", cov, [
         "store-level transparency (cache on = cache off) rests on the kv differential runs against one reference map, not on a refinement theorem",
-        "`eviction reaches the low watermark` and `second chance` are checked on the implementation by the harness oracle, not yet proved for the model",
+        "`eviction reaches the low watermark` is proved for the model's single-threaded evict (evict_reaches_low: two full passes of the hand suffice, MAX_SCANS = 3) and checked on the implementation by the harness oracle; concurrent gets that re-set reference bits during an eviction are outside the model",
         "the bucket hash is abstract in the theorems (any hash); the driver instantiates it with murmur3_32, itself compared with the crate's",
         "concurrent readers/writers are outside this engine",
     ])
